@@ -642,11 +642,15 @@ class PrecipitateModel (PrecipitateBase):
                 if self.numberOfElements == 1:
                     if addedIndices is None:
                         #This is very slow to do
-                        self._createLookupBinary(self.pData.temperature[self.pData.n])
+                        #The table is now at the current temperature, so the recorded eq. compositions and dTemp must follow
+                        xEqAlpha, xEqBeta = self._createLookupBinary(self.pData.temperature[self.pData.n])
+                        self.pData.xEqAlpha[self.pData.n], self.pData.xEqBeta[self.pData.n] = xEqAlpha[0], xEqBeta[0]
+                        self.dTemp = 0
                     else:
                         self.PSDXalpha[p] = np.concatenate((self.PSDXalpha[p], np.zeros((self.PBM[p].bins+1 - len(self.PSDXalpha[p]),1))))
                         self.PSDXbeta[p] = np.concatenate((self.PSDXbeta[p], np.zeros((self.PBM[p].bins+1 - len(self.PSDXbeta[p]),1))))
-                        self.PSDXalpha[p][addedIndices:,0], self.PSDXbeta[p][addedIndices:,0] = self.therm.getInterfacialComposition(self.pData.temperature[self.pData.n], self.particleGibbs(self.PBM[p].PSDbounds[addedIndices:], self.precipitateParameters[p].phase), precPhase=self.precipitateParameters[p].phase)
+                        #New classes are evaluated at the temperature the rest of the table was built at (current temperature - dTemp)
+                        self.PSDXalpha[p][addedIndices:,0], self.PSDXbeta[p][addedIndices:,0] = self.therm.getInterfacialComposition(self.pData.temperature[self.pData.n] - self.dTemp, self.particleGibbs(self.PBM[p].PSDbounds[addedIndices:], self.precipitateParameters[p].phase), precPhase=self.precipitateParameters[p].phase)
                 else:
                     self.PSDXalpha[p] = np.zeros((self.PBM[p].bins + 1, self.numberOfElements))
                     self.PSDXbeta[p] = np.zeros((self.PBM[p].bins + 1, self.numberOfElements))
